@@ -143,7 +143,7 @@ func genCase(t *rapid.T) Case {
 	g := &gen{t}
 	p1 := xp.PathE(g.mainPath())
 	var e *xp.E
-	switch g.pick(8, "context") {
+	switch g.pick(10, "context") {
 	case 0, 1:
 		e = p1
 	case 2:
@@ -156,8 +156,18 @@ func genCase(t *rapid.T) Case {
 		e = xp.Bin("=", p1, xp.PathE(g.mainPath()))
 	case 6:
 		e = xp.Call("concat", p1, xp.PathE(g.mainPath()))
-	default:
+	case 7:
 		e = xp.Bin("or", xp.Bin("=", p1, xp.PathE(g.mainPath())), xp.Bin("!=", xp.PathE(g.mainPath()), xp.Lit("y")))
+	default:
+		// a comparison with a multi-valued leaf-list (a node named "ll": the free tree answers with two values) stands
+		// before further paths with predicates: what the comparison of value sets leaves behind must not show in them
+		ll := g.mainPath()
+		ll.Steps = append(ll.Steps, xp.Step{Kind: "name", Name: "ll"})
+		first := xp.Bin([]string{"=", "!=", "="}[g.pick(3, "llop")], xp.PathE(ll), xp.Lit([]string{"x", "val:/ll#1", ""}[g.pick(3, "lllit")]))
+		e = xp.Bin([]string{"or", "and"}[g.pick(2, "llbool")], first, xp.Bin("=", p1, xp.PathE(g.mainPath())))
+		if g.pick(2, "llthird") == 0 {
+			e = xp.Bin("or", e, xp.Bin("!=", xp.PathE(g.mainPath()), xp.Lit("y")))
+		}
 	}
 	return Case{Expr: e, Ctx: g.ctxID(), MapFn: rapid.Bool().Draw(t, "mapfn"), Blanks: rapid.Bool().Draw(t, "blanks")}
 }
